@@ -84,3 +84,64 @@ def mgmt_frame(subtype, rng, ordered=False, body=b"", a1=None, a2=None, a3=None)
     rb = lambda n: bytes(rng.randrange(256) for _ in range(n))
     h = bytes([fc0, fc1]) + rb(2) + (a1 or rb(6)) + (a2 or rb(6)) + (a3 or rb(6)) + rb(2) + (rb(4) if ordered else b"")
     return h + body
+
+
+def rtap_chain(rng, maxwords=6):
+    """a well-formed chain of present words in the sense of Spec/RadiotapChainSpec.v: any subset of the 23 defined fields in
+    every word that starts a radiotap namespace (first word, or after bit 29), vendor namespaces (bit 30: 6-byte vendor header
+    at 2-byte alignment + skip bytes; the following word's bits 0..28 are arbitrary), continuation words without reset that
+    select nothing; random padding and data; None when the header would exceed 255 bytes"""
+    nw = rng.randrange(1, maxwords + 1)
+    words, modes = [], []
+    mode = "first"
+    for i in range(nw):
+        last = i == nw - 1
+        if mode == "first":
+            k = rng.choice([0, 1, 2, 2, 3, 5, 8])
+            w = sum(1 << b for b in rng.sample(range(23), k))
+            if i > 0 and rng.random() < 0.6:
+                w = (1 << 5) | ((1 << 11) if rng.random() < 0.8 else 0)
+        elif mode == "vend":
+            w = rng.getrandbits(29)
+        else:
+            w = 0
+        nxt = None
+        r = rng.random()
+        if r < 0.25:
+            w |= 1 << 30; nxt = "vend"
+        elif r < 0.8 or (mode != "vend" and not last and rng.random() < 0.7):
+            w |= 1 << 29; nxt = "first"
+        else:
+            nxt = "vend" if mode == "vend" else "cont"
+        if not last:
+            w |= 1 << 31
+        words.append(w); modes.append(mode)
+        mode = nxt
+    hdr = b"".join(struct.pack("<I", w) for w in words)
+    body = bytearray()
+    cur = 4 + len(hdr)
+
+    def pad(al):
+        nonlocal cur
+        while cur % al:
+            body.append(rng.randrange(256)); cur += 1
+    for w, m in zip(words, modes):
+        if m == "first":
+            for b in range(23):
+                if w >> b & 1:
+                    al, sz = AS[b]
+                    pad(al)
+                    v = bytearray(rng.randrange(256) for _ in range(sz))
+                    if b == 3 and rng.random() < 0.8:
+                        v[0:2] = struct.pack("<H", rng.choice([2412, 2437, 2484, 5180, 5885, 5955, 7115, 1000]))
+                    body.extend(v); cur += sz
+        if w >> 30 & 1:
+            pad(2)
+            skip = rng.choice([0, 0, 1, 3, 4, 9])
+            body.extend(bytes([0x00, 0x11, 0x22, rng.randrange(256)]) + struct.pack("<H", skip) + bytes(rng.randrange(256) for _ in range(skip)))
+            cur += 6 + skip
+    slack = rng.choice([0, 0, 1, 4])
+    L = cur + slack
+    if L > 255:
+        return None
+    return bytes([0, rng.randrange(256)]) + struct.pack("<H", L) + hdr + bytes(body) + bytes(rng.randrange(256) for _ in range(slack))
